@@ -479,6 +479,7 @@ type Contract struct {
 	Anys     []binder // universally quantified ghost constants ("any t int")
 	WrapOK   []string // source texts of conversions/operations whose wrap-around is intended
 	Cases    []CaseSplit
+	AltPkg   string // package of the interface contract this one was merged from
 }
 
 // CaseSplit: the entry state is split by the value of Expr (one path per listed value plus one for
@@ -490,6 +491,7 @@ type CaseSplit struct {
 
 type SpecFunc struct {
 	Name    string
+	Pkg     string
 	Params  []binder
 	Result  string
 	Body    *SExpr // nil: uninterpreted
@@ -519,11 +521,12 @@ type SpecSet struct {
 	NoEffect  map[string]bool // library functions without effect on verified state
 	Consts    map[string]*SExpr
 	GhostInits map[string][]LetDef // pkgpath#Type -> ghost map initialisations at &T{...}
+	TypeInvs   map[string][]*SExpr // pkgpath#Type -> invariants of *Type objects (over immutable fields)
 }
 
 func newSpecSet() *SpecSet {
 	return &SpecSet{Contracts: map[string]*Contract{}, Funcs: map[string]*SpecFunc{}, Ghosts: map[string]*GhostDecl{},
-		NoEffect: map[string]bool{}, Consts: map[string]*SExpr{}, GhostInits: map[string][]LetDef{}}
+		NoEffect: map[string]bool{}, Consts: map[string]*SExpr{}, GhostInits: map[string][]LetDef{}, TypeInvs: map[string][]*SExpr{}}
 }
 
 type ContractError struct{ msg string }
@@ -532,7 +535,7 @@ func (c ContractError) Error() string { return "CONTRACT-ERROR: " + c.msg }
 
 var clauseKeywords = map[string]bool{"func": true, "requires": true, "ensures": true, "modifies": true, "loop": true,
 	"spec": true, "axiom": true, "pred": true, "ghost": true, "inline": true, "trusted": true, "let": true, "tags": true,
-	"noeffect": true, "pure": true, "mode": true, "update": true, "const": true, "alloc": true, "implements": true, "end": true, "any": true, "wrapok": true, "ghostinit": true, "cases": true}
+	"noeffect": true, "pure": true, "mode": true, "update": true, "const": true, "alloc": true, "implements": true, "end": true, "any": true, "wrapok": true, "ghostinit": true, "cases": true, "typeinv": true}
 
 // parseContractText parses the //@ lines of one file. pkg is the package path ("" for library specs).
 func (ss *SpecSet) parseContractText(file, pkg string, lines []string, lineNos []int) error {
@@ -740,6 +743,18 @@ func (ss *SpecSet) parseContractText(file, pkg string, lines []string, lineNos [
 				return fail(it, "wrapok outside func")
 			}
 			cur.WrapOK = append(cur.WrapOK, strings.Join(strings.Fields(rest), ""))
+		case "typeinv":
+			// typeinv TYPE: expr(this)   -- assumed for every non-nil *TYPE; its fields must be immutable
+			i := strings.Index(rest, ":")
+			if i < 0 {
+				return fail(it, "typeinv TYPE: expr")
+			}
+			e, err := parseSpecExpr(rest[i+1:])
+			if err != nil {
+				return fail(it, err.Error())
+			}
+			k := pkg + "#" + strings.TrimSpace(rest[:i])
+			ss.TypeInvs[k] = append(ss.TypeInvs[k], e)
 		case "ghostinit":
 			// ghostinit TYPE: ghostmap[this] = expr
 			i := strings.Index(rest, ":")
@@ -823,10 +838,11 @@ func (ss *SpecSet) parseContractText(file, pkg string, lines []string, lineNos [
 				return fail(it, err.Error())
 			}
 			sf.File, sf.Line = file, it.line
-			if _, dup := ss.Funcs[sf.Name]; dup {
+			sf.Pkg = pkg
+			if _, dup := ss.Funcs[pkg+"#"+sf.Name]; dup {
 				return fail(it, "duplicate spec function "+sf.Name)
 			}
-			ss.Funcs[sf.Name] = sf
+			ss.Funcs[pkg+"#"+sf.Name] = sf
 		case "axiom":
 			i := strings.Index(rest, ":")
 			if i < 0 {
@@ -1003,4 +1019,28 @@ func specSort(t string) *Sort {
 		return SArray(SStr)
 	}
 	panic(ContractError{"unknown spec type " + t})
+}
+
+// lookupFunc resolves a spec function name: the current package first, then library specs, then a
+// unique definition in any other package. Package-scoped definitions make abstract predicates
+// possible: uninterpreted in one package, defined in the package that owns the representation.
+func (ss *SpecSet) lookupFunc(name, pkg string) *SpecFunc {
+	if f, ok := ss.Funcs[pkg+"#"+name]; ok {
+		return f
+	}
+	if f, ok := ss.Funcs["#"+name]; ok {
+		return f
+	}
+	var found *SpecFunc
+	for _, f := range ss.Funcs {
+		if f.Name == name {
+			if found != nil && found.Body != nil && f.Body != nil {
+				return nil // ambiguous
+			}
+			if found == nil || f.Body != nil {
+				found = f
+			}
+		}
+	}
+	return found
 }
